@@ -124,6 +124,16 @@ def gen_eval() -> str:
     lines.append("def safeCastTargets : List (String × String) := " + llist(sorted((k, getattr(v, "__name__", repr(v))) for k, v in pa._SAFE_CASTS.items()), lambda kv: "(" + lstr(kv[0]) + ", " + lstr(kv[1]) + ")"))
     lines.append("def safeNames : List String := " + llist(sorted(pa._SAFE_NAME_REFERENCES)))
     lines += ["", "end Reduino.Gen.Eval", ""]
+def gen_types() -> str:
+    """`_BUILTIN_CALL_RETURN_TYPES` of the parser: the type `_infer_expr_type` gives a call of a builtin (C02)"""
+    import importlib
+    pa = importlib.import_module("Reduino.transpile.parser")
+    table = pa._BUILTIN_CALL_RETURN_TYPES
+    if not all(isinstance(k, str) and isinstance(v, str) for k, v in table.items()):
+        raise ValueError("_BUILTIN_CALL_RETURN_TYPES is not a str -> str table")
+    lines = ["namespace Reduino.Gen", ""]
+    lines.append(f"def builtinReturn : List (String × String) := {llist(sorted(table.items()), lambda kv: '(' + lstr(kv[0]) + ', ' + lstr(kv[1]) + ')', per_line=4)}")
+    lines += ["", "end Reduino.Gen", ""]
     return "\n".join(lines)
 
 
@@ -194,7 +204,7 @@ def gen_bind() -> str:
     return "\n".join(lines)
 
 
-GENERATORS = {"Host": gen_host, "Pio": gen_pio, "Buzzer": gen_buzzer, "Bind": gen_bind, "Ops": gen_ops, "Eval": gen_eval}
+GENERATORS = {"Host": gen_host, "Pio": gen_pio, "Buzzer": gen_buzzer, "Bind": gen_bind, "Ops": gen_ops, "Eval": gen_eval, "Types": gen_types}
 # generators that are slow (they probe the transpiler) run only for the checks that need them, and in setup
 NEEDS = {"Bind": {"C08"}}
 
